@@ -228,6 +228,16 @@ pub fn exec(toks: &[&str]) -> String {
                 Err(_) => "err".into(),
             }
         }
+        ["jraw", hx] => match crate::rng::unhex(hx).and_then(|b| String::from_utf8(b).ok()) {
+            Some(text) => match SlurmFile::from_str(&text) {
+                Ok(f) => {
+                    if SlurmFile::from_reader(text.as_bytes()).ok().as_ref() != Some(&f) { return "from_reader-disagrees".into(); }
+                    format!("ok {}", hex(f.to_string().as_bytes()))
+                }
+                Err(_) => "err".into(),
+            },
+            None => "bad-op".into(),
+        },
         ["drop", ft, pt] => {
             let ftext = match to_json(ft) { Some(x) => x, None => return "bad-op".into() };
             let text = format!("{{\"slurmVersion\":2,\"validationOutputFilters\":{},\"locallyAddedAssertions\":{}}}", ftext, EMPTY_ASSERT);
@@ -461,6 +471,46 @@ pub fn generate(ctx: &mut Ctx) {
         let provs: Vec<String> = (1..=k).map(|i| format!("N{}", i)).collect();
         ctx.case(&format!("json {{slurmVersion:N2,validationOutputFilters:{{prefixFilters:[],bgpsecFilters:[],aspaFilters:[]}},locallyAddedAssertions:{{prefixAssertions:[],bgpsecAssertions:[],aspaAssertions:[{{customerAsn:N64496,providerAsns:[{}]}}]}}}}", provs.join(",")));
     }
+    // hand-made texts for the reader: escapes, surrogates, number forms, white space, trailing material
+    {
+        let wrap = |filt: &str, asrt: &str| format!("{{\"slurmVersion\":1,\"validationOutputFilters\":{},\"locallyAddedAssertions\":{}}}", filt, asrt);
+        let ef = "{\"prefixFilters\":[],\"bgpsecFilters\":[]}";
+        let ea = "{\"prefixAssertions\":[],\"bgpsecAssertions\":[]}";
+        let mut texts: Vec<String> = vec![String::new(), " ".into(), "{}".into(), "[]".into(), "null".into(), wrap(ef, ea), format!(" \t\r\n{}\n ", wrap(ef, ea)),
+            format!("{}x", wrap(ef, ea)), format!("{}{}", wrap(ef, ea), wrap(ef, ea)), format!("{}{}", '\u{feff}', wrap(ef, ea)), format!("{},", wrap(ef, ea)),
+            ];
+        // not generated: the *sequence form* serde derives for every struct (`"validationOutputFilters":[[],[],null]` is
+        // read like the map form); the reader model covers the map form, see DESIGN.md A.6 (C15, session 12)
+        for c in ["x", "\\u0041", "\\u00e9", "\\u00E9", "\\u0000", "\\u001f", "\\u007f", "\\u0080", "\\u07ff", "\\u0800", "\\uffff", "\\ud7ff", "\\ue000",
+                  "\\ud83d\\ude00", "\\uD83D\\uDE00", "\\ud800\\udc00", "\\udbff\\udfff", "\\ud800", "\\udc00", "\\ud800x", "\\ud800\\u0041", "\\ud800\\ud800", "\\udfff\\ud800",
+                  "\\/", "\\b\\f\\n\\r\\t\\\"\\\\", "\\a", "\\x41", "\\u12", "\\u12g4", "\\U0041", "\\", "\t", "\n", "\u{1}", "\u{7f}", "\u{e9}", "\u{2028}", "\u{1f600}", "a\\u0062c", "\\u005c\\u0022"] {
+            texts.push(wrap(&format!("{{\"prefixFilters\":[{{\"asn\":1,\"comment\":\"{}\"}}],\"bgpsecFilters\":[]}}", c), ea));
+        }
+        for n in ["0", "1", "5", "-0", "-1", "+1", "01", "00", "1.0", "1.", ".5", "1e0", "1E0", "1e+0", "1e-0", "1e", "1e+", "0e0", "0.0", "1.5e3", "4294967295", "4294967296",
+                  "18446744073709551615", "18446744073709551616", "123456789012345678901234567890", "1e400", "-", "--1", "0x10", "1 ", " 1", "1_0", "null", "true", "\"1\"", "[1]", "{}"] {
+            texts.push(wrap(&format!("{{\"prefixFilters\":[{{\"asn\":{}}}],\"bgpsecFilters\":[]}}", n), ea));
+            texts.push(wrap(&format!("{{\"prefixFilters\":[],\"bgpsecFilters\":[{{\"asn\":7,\"extra\":{}}}]}}", n), ea));
+            texts.push(format!("{{\"slurmVersion\":{},\"validationOutputFilters\":{},\"locallyAddedAssertions\":{}}}", n, ef, ea));
+            texts.push(wrap(ef, &format!("{{\"prefixAssertions\":[{{\"prefix\":\"10.0.0.0/8\",\"asn\":1,\"maxPrefixLength\":{}}}],\"bgpsecAssertions\":[]}}", n)));
+        }
+        for v in ["[]", "[1,2]", "[1,]", "[,1]", "[1 2]", "[1,,2]", "[", "]", "{\"a\":1}", "{\"a\":1,}", "{,}", "{\"a\"}", "{\"a\":}", "{a:1}", "{\"a\":1 \"b\":2}", "{\"a\":1,\"a\":2}",
+                  "[[[[[[[[[[]]]]]]]]]]", "{\"a\":{\"b\":{\"c\":[null,true,false,\"s\",-1.5e-3]}}}", "nul", "nulll", "tru", "TRUE", "fals", "\"unterminated", "'s'", "\"a\"\"b\""] {
+            texts.push(wrap(&format!("{{\"prefixFilters\":[],\"bgpsecFilters\":[{{\"asn\":7,\"extra\":{}}}]}}", v), ea));
+            texts.push(wrap(&format!("{{\"prefixFilters\":[{{\"asn\":7,\"extra\":{}}}],\"bgpsecFilters\":[]}}", v), ea));
+        }
+        // deep nesting in an ignored member (serde_json's recursion limit is 128)
+        for d in [100usize, 126, 127, 128, 129, 200] {
+            let v = format!("{}{}", "[".repeat(d), "]".repeat(d));
+            texts.push(wrap(&format!("{{\"prefixFilters\":[],\"bgpsecFilters\":[{{\"asn\":7,\"extra\":{}}}]}}", v), ea));
+        }
+        // prefixes and member names with escapes
+        for p in ["10.0.0.0/8", "10.0.0.0\\/8", "10.0.0.0\\u002f8", "10.0.0.0/+8", "10.0.0.0/08", "10.0.0.1/8", "::/0", "::ffff:1.2.3.0/120", "2001:DB8::/32", " 10.0.0.0/8", ""] {
+            texts.push(wrap(&format!("{{\"prefixFilters\":[{{\"prefix\":\"{}\"}}],\"bgpsecFilters\":[]}}", p), ea));
+        }
+        texts.push(wrap("{\"prefix\\u0046ilters\":[],\"bgpsecFilters\":[]}", ea));
+        texts.push(wrap("{\"prefixFilters\":[{\"a\\u0073n\":5}],\"bgpsecFilters\":[]}", ea));
+        for t in &texts { ctx.case(&format!("jraw {}", hex(t.as_bytes()))); }
+    }
     // JSON: valid files, then structure-aware mutations
     for _ in 0..(if thorough { 30_000 } else { 4_000 }) {
         let f = random_file(&mut rng);
@@ -471,6 +521,33 @@ pub fn generate(ctx: &mut Ctx) {
             if m != f && to_json(&m).is_some() {
                 ctx.case(&format!("json {}", m));
                 if rng.chance(1, 3) { ctx.case(&format!("jtext {}", m)); }
+            }
+        }
+        // the text itself (session 12): what the library writes, compact and pretty, and character-level mutants
+        // of both through from_str (model: Rpki/Model/JsonRead.lean)
+        if let Some(text) = to_json(&f) {
+            if let Ok(file) = SlurmFile::from_str(&text) {
+                let compact = file.to_string();
+                let pretty = file.to_string_pretty();
+                ctx.case(&format!("jraw {}", hex(compact.as_bytes())));
+                ctx.case(&format!("jraw {}", hex(pretty.as_bytes())));
+                let alphabet: &[u8] = b"\"\\/bfnrtu{}[],:-+.eE0123456789 \t\n\raDxX=_";
+                for base in [&compact, &pretty] {
+                    for _ in 0..3 {
+                        let mut b = base.clone().into_bytes();
+                        for _ in 0..(1 + rng.below(2)) {
+                            let c = *rng.pick(alphabet);
+                            let i = rng.below(b.len() as u64) as usize;
+                            match rng.below(4) {
+                                0 => { b[i] = c; }
+                                1 => { b.remove(i); }
+                                2 => { let j = rng.below(b.len() as u64) as usize; b.swap(i, j); }
+                                _ => { b.insert(i, c); }
+                            }
+                        }
+                        if let Ok(t) = String::from_utf8(b) { ctx.case(&format!("jraw {}", hex(t.as_bytes()))); }
+                    }
+                }
             }
         }
         // assertions payload and version choice
